@@ -69,6 +69,8 @@ func run(r *vk.Run) {
 	m.randomPhase()
 	lap("random")
 	m.unknownFieldObservations()
+	m.multiSubscriberPhase()
+	lap("multi-subscriber")
 
 	q := r.Quick()
 	pick := func(a, b int) int {
